@@ -56,6 +56,15 @@ func c08seed(r *Rng, n int) []string {
 	return out
 }
 
+// c08unexp: redactables in unexported fields, typed and behind interfaces.
+type c08unexp struct {
+	rs redact.RedactableString
+	rb redact.RedactableBytes
+	i  interface{}
+	j  interface{}
+	E  interface{}
+}
+
 func c08dir(r *Rng) Dir {
 	d := randDir(r, genOpts{}, r.Chance(1, 3))
 	d.Lit = ""
@@ -105,11 +114,22 @@ func c08check(w *Worker, pool *c08pool, r *Rng, idx int64) (produced string) {
 			d.PArg = 1
 		}
 		forms := []interface{}{redact.RedactableString(rs), redact.RedactableBytes(rs), reflect.ValueOf(redact.RedactableString(rs)), reflect.ValueOf(redact.RedactableBytes(rs))}
+		if r.Chance(1, 3) {
+			// reflect.Value operands of the kinds a generic struct walker produces: read-only values taken from
+			// unexported fields (typed, and interface-typed), interface-kind values taken from a slice element,
+			// an exported interface field and a pointer's target
+			ue := reflect.ValueOf(c08unexp{redact.RedactableString(rs), redact.RedactableBytes(rs), redact.RedactableString(rs), redact.RedactableBytes(rs), redact.RedactableString(rs)})
+			var iface interface{} = redact.RedactableString(rs)
+			rsv := redact.RedactableString(rs)
+			forms = []interface{}{ue.Field(0), ue.Field(1), ue.Field(2), ue.Field(3), ue.Field(4),
+				reflect.ValueOf([]interface{}{redact.RedactableString(rs)}).Index(0), reflect.ValueOf([]interface{}{redact.RedactableBytes(rs)}).Index(0),
+				reflect.ValueOf(&iface).Elem(), reflect.ValueOf(&rsv).Elem(), reflect.ValueOf([]redact.RedactableString{rsv}).Index(0)}
+		}
 		v := forms[r.Intn(len(forms))]
 		got := string(redact.Sprintf(d.String(), c08args(d, v)...))
 		w.Eval(1)
 		if got != rs {
-			viol("identity", "Sprintf("+q(d.String())+", r) = "+q(got)+" (operand form "+reflect.TypeOf(v).String()+")", map[string]interface{}{"dir": d})
+			viol("identity", "Sprintf("+q(d.String())+", r) = "+q(got)+" (operand form "+c08form(v)+")", map[string]interface{}{"dir": d})
 		}
 		nt("identity" + d.String())
 		produced = got
@@ -290,4 +310,11 @@ func runC08(c *Ctx) {
 	}
 	c.Extra("reprint_depth", depth)
 	c.res.Bound = "feedback depth " + itoa(depth) + ", " + itoa(int(perGen)) + " operations per generation"
+}
+
+func c08form(v interface{}) string {
+	if rv, ok := v.(reflect.Value); ok {
+		return "reflect.Value of kind " + rv.Kind().String() + ", type " + rv.Type().String() + ", CanInterface=" + sprint(rv.CanInterface()) + ", CanAddr=" + sprint(rv.CanAddr())
+	}
+	return reflect.TypeOf(v).String()
 }
